@@ -58,6 +58,11 @@ Example ex12_same_call_other_provider_value : run_call w12 (PSOk [("k", 2%Z)]) [
 Proof. vm_compute. reflexivity. Qed.
 Example ex12_bad_provider : run_call w12 PSBad [("x", arrE [3;4]%Z)] (BReturn VNone) = (false, CRejected EScopeProvider).
 Proof. reflexivity. Qed.
+(* a provided size of 0 pre-binds like any other size (0 is falsy in Python: a filter written `if size` would drop it) *)
+Example ex12_zero_is_a_size :
+  run_call w12 (PSOk [("k", 0%Z)]) [("x", arrE [0;1]%Z)] (BReturn VNone) = (true, CReturned VNone) /\
+  run_call w12 (PSOk [("k", 0%Z)]) [("x", arrE [3;4]%Z)] (BReturn VNone) = (false, CRejected (EShape "x" 0 0 3)).
+Proof. vm_compute. split; reflexivity. Qed.
 (* a history in which the provider's value changes between calls: each call sees the value in force then *)
 Definition f12 : wfn := {| wf_params := [("x", "T", false)]; wf_provider := Some "p" |}.
 Definition world12 : world := {| aliases := [("T", annA "k a=k+1" false)]; providers := [("p", [("k", 3%Z)])] |}.
